@@ -5,6 +5,18 @@
 //   cache    : system-matrix cache requested concurrently with repeats
 //   project  : forward / back projection of whole data sets with T threads vs 1 thread
 //   loglik   : Poisson log-likelihood value / gradient / sensitivity / Hessian product with T threads vs 1 thread
+//   loglik_full     : the same objective function with 1..3 subsets, normalisation, additive term, end-plane zeroing: per subset
+//                     value, sub-gradient, sub-gradient + sensitivity, add_subset_sensitivity, accumulate_sub_Hessian_times_input,
+//                     add_multiplication_with_approximate_sub_Hessian, T threads vs 1 thread (one trace per distributable call)
+//   projdata_stream : projection data held in ProjDataInterfile / ProjDataFromStream on real files (written by this harness under
+//                     <dir of opsfile>/c18_files_<tier>) and in ProjDataInMemory:
+//                       .io      concurrent get_/set_ viewgram / sinogram / segment / bin value from the harness' own parallel loop
+//                                (disjoint regions written, every region read back; reads compared with an in-memory copy),
+//                       .project forward projection into a file and back projection from a file, T threads vs 1 thread,
+//                       .loglik  log-likelihood value / gradient / sensitivity / Hessian products with data, additive term and
+//                                normalisation factors read from files
+//   scatter  : SingleScatterSimulation::process_data on a small scanner / phantom, line-integral cache enabled and disabled,
+//              T threads vs 1 thread (all bins bitwise, total scatter up to reassociation of the per-thread partial sums)
 // Output: the event trace of every scenario in the line protocol (validated by lean/Driver/C18.lean) and
 // ORACLE verdicts comparing multi-threaded with single-threaded results.
 // Usage: c18_threads <seed> <quick|thorough> <opsfile> <implfile>
@@ -13,6 +25,14 @@
 #include "stir/Bin.h"
 #include "stir/DetectionPositionPair.h"
 #include "stir/ProjDataInMemory.h"
+#include "stir/ProjDataInterfile.h"
+#include "stir/ProjDataFromStream.h"
+#include "stir/Viewgram.h"
+#include "stir/Sinogram.h"
+#include "stir/SegmentByView.h"
+#include "stir/SegmentBySinogram.h"
+#include "stir/recon_buildblock/BinNormalisationFromProjData.h"
+#include "stir/scatter/SingleScatterSimulation.h"
 #include "stir/ProjDataInfoCylindricalNoArcCorr.h"
 #include "stir/recon_buildblock/ProjMatrixByBinUsingRayTracing.h"
 #include "stir/recon_buildblock/ProjMatrixElemsForOneBin.h"
@@ -30,6 +50,11 @@
 #include <sched.h>
 #include <unistd.h>
 #include <algorithm>
+#include <atomic>
+#include <functional>
+#include <sys/stat.h>
+#include <fcntl.h>
+#include <dirent.h>
 
 using namespace stir;
 typedef DiscretisedDensity<3, float> Image;
@@ -46,18 +71,14 @@ static std::vector<Event> g_log;
 static bool g_logging = false;
 static uint64_t g_seed = 1;
 static int g_round = 0;
+// events of the scatter cache are far too many to be listed one by one (and no validator reads them): they are counted
+static std::atomic<long> g_sc_reads(0), g_sc_hits(0);
 
-extern "C" void
-stir_verif_sched_point(const char* site, long key, int value)
+// seeded perturbation of the schedule of the calling thread: `light` = yields only (used inside tight loops)
+static void
+perturb(bool light)
 {
-  if (!g_logging)
-    return;
   const int tid = omp_get_thread_num();
-  {
-    std::lock_guard<std::mutex> lk(g_mx);
-    g_log.push_back(Event{ tid, site, key, value });
-  }
-  // perturb the schedule
   static thread_local vh::Rng rng(0);
   static thread_local int round = -1;
   if (round != g_round)
@@ -68,8 +89,31 @@ stir_verif_sched_point(const char* site, long key, int value)
   const int r = rng.range(0, 9);
   if (r < 3)
     sched_yield();
-  else if (r < 5)
+  else if (r < 5 && !light)
     usleep(rng.range(1, 120));
+  else if (r < 4 && light)
+    usleep(rng.range(1, 20));
+}
+
+extern "C" void
+stir_verif_sched_point(const char* site, long key, int value)
+{
+  if (!g_logging)
+    return;
+  if (site[0] == 's' && site[1] == 'c' && site[2] == '.')
+    {
+      ++g_sc_reads;
+      if (value)
+        ++g_sc_hits;
+      perturb(true);
+      return;
+    }
+  const int tid = omp_get_thread_num();
+  {
+    std::lock_guard<std::mutex> lk(g_mx);
+    g_log.push_back(Event{ tid, site, key, value });
+  }
+  perturb(false);
 }
 
 static FILE *ops, *out, *orc;
@@ -85,16 +129,23 @@ start_trace()
   g_logging = true;
 }
 
+// Prints the recorded events [from, to) as one trace.  only_site != "": only the events of that site (a view of a part of a
+// longer trace, used to have the work items of one pass checked on their own).
 static void
-emit_trace(const std::string& name, int expected_bp, int expected_fp, int expected_dist)
+emit_trace(const std::string& name, int expected_bp, int expected_fp, int expected_dist, std::size_t from = 0, std::size_t to = static_cast<std::size_t>(-1),
+           const std::string& only_site = "")
 {
   g_logging = false;
   std::fprintf(ops, "begin %s %d %d %d\n", name.c_str(), expected_bp, expected_fp, expected_dist);
   std::fprintf(out, "begin\n");
   // canonicalise pointer-valued keys (object identities) by order of first appearance
   std::map<long, long> ids;
-  for (auto& e : g_log)
+  to = std::min(to, g_log.size());
+  for (std::size_t i = from; i < to; ++i)
     {
+      const Event& e = g_log[i];
+      if (!only_site.empty() && e.site != only_site)
+        continue;
       long k = e.key;
       if (e.site.compare(0, 4, "pdi.") == 0 || e.site.compare(0, 9, "bp.local.") == 0 || e.site == "bp.reduce")
         {
@@ -446,6 +497,783 @@ scenario_loglik(vh::Rng& rng, int T)
     fail("loglik: Hessian-times-vector differs from single-thread result: " + why);
 }
 
+// ---------------------------------------------------------------- helpers for the scenarios on files / objective function
+static std::string g_dir;
+static int g_file_counter = 0;
+
+// remove what an earlier (possibly crashed) run left behind
+static void
+wipe_dir()
+{
+  if (DIR* d = opendir(g_dir.c_str()))
+    {
+      while (dirent* e = readdir(d))
+        if (e->d_name[0] == 'f')
+          unlink((g_dir + "/" + e->d_name).c_str());
+      closedir(d);
+    }
+}
+
+static std::string
+new_file(const char* tag)
+{
+  return g_dir + "/f" + std::to_string(++g_file_counter) + "_" + tag;
+}
+
+static void
+remove_files(const std::string& base)
+{
+  unlink((base + ".hs").c_str());
+  unlink((base + ".s").c_str());
+}
+
+static shared_ptr<ProjData>
+make_file(const Problem& p, const std::string& base, ProjDataFromStream::StorageOrder order)
+{
+  return shared_ptr<ProjData>(new ProjDataInterfile(p.exam, p.pdi, base + ".hs", std::ios::in | std::ios::out | std::ios::trunc, order));
+}
+
+template <class A, class B>
+static bool
+same_values(const A& a, const B& b)
+{
+  if (a.size_all() != b.size_all())
+    return false;
+  auto ib = b.begin_all();
+  for (auto ia = a.begin_all(); ia != a.end_all(); ++ia, ++ib)
+    if (!(*ia == *ib))
+      return false;
+  return true;
+}
+
+// all viewgrams of `a` against `b` (read single-threaded): |a-b| <= rel * max|b|
+static bool
+projdata_close(const ProjData& a, const ProjData& b, double rel, std::string& why)
+{
+  double mx = 0;
+  for (int t = b.get_min_tof_pos_num(); t <= b.get_max_tof_pos_num(); ++t)
+    for (int s = b.get_min_segment_num(); s <= b.get_max_segment_num(); ++s)
+      for (int v = b.get_min_view_num(); v <= b.get_max_view_num(); ++v)
+        {
+          const Viewgram<float> vb = b.get_viewgram(v, s, false, t);
+          for (auto it = vb.begin_all(); it != vb.end_all(); ++it)
+            mx = std::max(mx, std::fabs(static_cast<double>(*it)));
+        }
+  for (int t = b.get_min_tof_pos_num(); t <= b.get_max_tof_pos_num(); ++t)
+    for (int s = b.get_min_segment_num(); s <= b.get_max_segment_num(); ++s)
+      for (int v = b.get_min_view_num(); v <= b.get_max_view_num(); ++v)
+        {
+          const Viewgram<float> va = a.get_viewgram(v, s, false, t);
+          const Viewgram<float> vb = b.get_viewgram(v, s, false, t);
+          auto ia = va.begin_all();
+          for (auto ib = vb.begin_all(); ib != vb.end_all(); ++ib, ++ia)
+            if (!(std::fabs(static_cast<double>(*ia) - *ib) <= rel * mx))
+              {
+                why = "viewgram (view " + std::to_string(v) + ", segment " + std::to_string(s) + ", tof " + std::to_string(t) + "): "
+                      + vh::hex(*ia) + " vs single-thread " + vh::hex(*ib) + " (max " + vh::hex(mx) + ")";
+                return false;
+              }
+        }
+  return true;
+}
+
+static int
+num_items_in_subset(const Problem& p, const ProjMatrixByBin& pm, int subset, int nsub)
+{
+  shared_ptr<DataSymmetriesForViewSegmentNumbers> sym(pm.get_symmetries_ptr()->clone());
+  return static_cast<int>(detail::find_basic_vs_nums_in_subset(*p.pdi, *sym, p.pdi->get_min_segment_num(), p.pdi->get_max_segment_num(), subset, nsub).size())
+         * p.pdi->get_num_tof_poss();
+}
+
+// everything the objective function can be asked, per subset
+struct LLConfig
+{
+  int nsub;
+  bool zero_ends;
+  shared_ptr<Image> x, dir;
+};
+struct LLResult
+{
+  bool ok = false;
+  std::string error;
+  std::vector<std::string> names; // of images
+  std::vector<shared_ptr<Image>> images;
+  std::vector<double> scales; // extra magnitude (sum of cancelling parts) the tolerance of an image refers to
+  std::vector<double> values;
+};
+
+typedef PoissonLogLikelihoodWithLinearModelForMeanAndProjData<Image> LLObj;
+
+static double
+max_abs(const Image& im)
+{
+  double mx = 0;
+  for (auto it = im.begin_all_const(); it != im.end_all_const(); ++it)
+    mx = std::max(mx, std::fabs(static_cast<double>(*it)));
+  return mx;
+}
+
+// One fresh objective function (fresh matrix, projectors, normalisation object) asked for everything with `threads` threads.
+static LLResult
+run_ll(const Problem& p, const LLConfig& c, shared_ptr<ProjData> y, shared_ptr<ProjData> add, shared_ptr<ProjData> normdata,
+       int threads, bool trace, const std::string& scen)
+{
+  LLResult r;
+  stir::set_num_threads(threads);
+  try
+    {
+      shared_ptr<ProjMatrixByBinUsingRayTracing> pm = make_matrix(p, true);
+      shared_ptr<ProjectorByBinPair> pair(new ProjectorByBinPairUsingProjMatrixByBin(pm));
+      LLObj obj;
+      obj.set_proj_data_sptr(y);
+      obj.set_projector_pair_sptr(pair);
+      if (add)
+        obj.set_additive_proj_data_sptr(add);
+      if (normdata)
+        obj.set_normalisation_sptr(shared_ptr<BinNormalisation>(new BinNormalisationFromProjData(normdata)));
+      obj.set_zero_seg0_end_planes(c.zero_ends);
+      obj.set_num_subsets(c.nsub);
+      obj.set_recompute_sensitivity(true);
+      obj.set_use_subset_sensitivities(true);
+      const Image& x = *c.x;
+      // one trace for the whole life of the objective function (the cache validator needs the whole history of the cache); the passes of
+      // distributable_computation whose number of work items is known are also listed on their own (work items only) afterwards
+      struct Pass
+      {
+        std::string name;
+        std::size_t from, to;
+        int expected;
+      };
+      std::vector<Pass> passes;
+      std::size_t mark = 0;
+      auto begin_pass = [&]() { mark = g_log.size(); }; // (no parallel region is active here)
+      auto end_pass = [&](const std::string& name, int expected) {
+        if (trace && expected > 0)
+          passes.push_back(Pass{ scen + "." + name, mark, g_log.size(), expected });
+      };
+      if (trace)
+        start_trace();
+      shared_ptr<Image> target(x.clone());
+      if (obj.set_up(target) != Succeeded::yes)
+        {
+          r.error = "set_up failed";
+          g_logging = false;
+          return r;
+        }
+      for (int s = 0; s < c.nsub; ++s)
+        {
+          const int n = num_items_in_subset(p, *pm, s, c.nsub);
+          const std::string tag = "[subset " + std::to_string(s) + "/" + std::to_string(c.nsub) + "]";
+          auto add_image = [&](const std::string& name, shared_ptr<Image> im, double scale) {
+            r.names.push_back(name + tag);
+            r.images.push_back(im);
+            r.scales.push_back(scale);
+          };
+          // value
+          begin_pass();
+          r.values.push_back(obj.compute_objective_function(x, s));
+          end_pass("value", n);
+          // sensitivity of the subset, computed afresh
+          shared_ptr<Image> sens(x.get_empty_copy());
+          begin_pass();
+          obj.add_subset_sensitivity(*sens, s);
+          end_pass("sens", p.pdi->is_tof_data() ? 0 : n); // (TOF data: the sensitivity uses the non-TOF geometry)
+          const double sens_max = max_abs(*sens);
+          add_image("add_subset_sensitivity", sens, 0);
+          add_image("subset sensitivity computed by set_up", shared_ptr<Image>(obj.get_subset_sensitivity(s).clone()), 0);
+          // gradient + sensitivity, gradient
+          shared_ptr<Image> gps(x.get_empty_copy());
+          begin_pass();
+          obj.compute_sub_gradient_without_penalty_plus_sensitivity(*gps, x, s);
+          end_pass("gradps", n);
+          add_image("sub-gradient plus sensitivity", gps, 0);
+          shared_ptr<Image> grad(x.get_empty_copy());
+          begin_pass();
+          obj.compute_sub_gradient(*grad, x, s);
+          end_pass("grad", n);
+          // the gradient is (back projection of the quotient) - sensitivity: its rounding error is that of the two parts
+          add_image("sub-gradient", grad, max_abs(*gps) + sens_max);
+          // Hessian products
+          shared_ptr<Image> hess(x.get_empty_copy());
+          if (obj.accumulate_sub_Hessian_times_input(*hess, x, *c.dir, s) != Succeeded::yes)
+            r.error = "accumulate_sub_Hessian_times_input failed";
+          add_image("accumulate_sub_Hessian_times_input", hess, 0);
+          shared_ptr<Image> ahess(x.get_empty_copy());
+          if (obj.add_multiplication_with_approximate_sub_Hessian(*ahess, *c.dir, s) != Succeeded::yes)
+            r.error = "add_multiplication_with_approximate_sub_Hessian failed";
+          add_image("add_multiplication_with_approximate_sub_Hessian", ahess, 0);
+        }
+      if (trace)
+        {
+          emit_trace(scen, 0, 0, 0);
+          for (auto& ps : passes)
+            emit_trace(ps.name, 0, 0, ps.expected, ps.from, ps.to, "dist.work");
+        }
+      r.ok = r.error.empty();
+    }
+  catch (std::exception& e)
+    {
+      g_logging = false;
+      r.error = std::string("exception: ") + e.what();
+    }
+  catch (...)
+    {
+      g_logging = false;
+      r.error = "exception";
+    }
+  return r;
+}
+
+static void
+compare_ll(const std::string& scen, int T, const LLResult& ref, const LLResult& par)
+{
+  ++oracle_checks;
+  if (!par.ok)
+    {
+      fail(scen + ": with " + std::to_string(T) + " threads the objective function failed (" + par.error + ") where the single-thread run succeeded");
+      return;
+    }
+  if (par.values.size() != ref.values.size() || par.images.size() != ref.images.size())
+    {
+      fail(scen + ": different number of results");
+      return;
+    }
+  for (std::size_t i = 0; i < ref.values.size(); ++i)
+    {
+      ++oracle_checks;
+      // sum of T partial sums of doubles instead of one: relative error far below 1e-9 of the sum of the magnitudes; the terms
+      // y log(ybar) - ybar have mixed signs, so the bound is relative to a magnitude at least |value|
+      if (!(std::fabs(ref.values[i] - par.values[i]) <= 1e-6 * std::fabs(ref.values[i]) + 1e-9))
+        fail(scen + ": value of subset " + std::to_string(i) + " with " + std::to_string(T) + " threads " + vh::hex(par.values[i]) + " vs single-thread "
+             + vh::hex(ref.values[i]));
+    }
+  for (std::size_t i = 0; i < ref.images.size(); ++i)
+    {
+      ++oracle_checks;
+      const double mx = std::max(max_abs(*ref.images[i]), ref.scales[i]);
+      auto ia = par.images[i]->begin_all_const();
+      for (auto ib = ref.images[i]->begin_all_const(); ib != ref.images[i]->end_all_const(); ++ib, ++ia)
+        if (!(std::fabs(static_cast<double>(*ia) - *ib) <= 5e-5 * mx + 1e-30))
+          {
+            fail(scen + ": " + ref.names[i] + " with " + std::to_string(T) + " threads differs from the single-thread result beyond reassociation: " + vh::hex(*ia)
+                 + " vs " + vh::hex(*ib) + " (scale " + vh::hex(mx) + ")");
+            break;
+          }
+    }
+}
+
+// ---------------------------------------------------------------- scenario: loglik_full
+static void
+scenario_loglik_full(vh::Rng& rng, int T)
+{
+  Problem p = make_problem(rng, false);
+  LLConfig c;
+  c.x = p.image;
+  fill_image(*c.x, rng, true);
+  c.dir.reset(c.x->get_empty_copy());
+  fill_image(*c.dir, rng, true); // the Hessian products require a non-negative forward projection of their input
+  shared_ptr<ProjData> y(new ProjDataInMemory(p.exam, p.pdi));
+  fill_data(*y, rng, 0, 6);
+  shared_ptr<ProjData> add, norm;
+  if (rng.range(0, 2) != 0)
+    {
+      add.reset(new ProjDataInMemory(p.exam, p.pdi));
+      fill_data(*add, rng, 1, 3);
+    }
+  if (rng.coin())
+    {
+      norm.reset(new ProjDataInMemory(p.exam, p.pdi));
+      fill_data(*norm, rng, 1, 3);
+    }
+  c.zero_ends = rng.range(0, 3) == 0;
+  c.nsub = rng.range(1, 3);
+  LLResult ref = run_ll(p, c, y, add, norm, 1, false, "loglik_full");
+  if (!ref.ok && c.nsub != 1)
+    {
+      // the library refuses some subset numbers for some symmetries: not this property's subject
+      c.nsub = 1;
+      ref = run_ll(p, c, y, add, norm, 1, false, "loglik_full");
+    }
+  if (!ref.ok)
+    {
+      fail("loglik_full: single-thread reference run failed: " + ref.error);
+      ++oracle_checks;
+      return;
+    }
+  LLResult par = run_ll(p, c, y, add, norm, T, true, "loglik_full");
+  compare_ll("loglik_full", T, ref, par);
+}
+
+// ---------------------------------------------------------------- scenario: projdata_stream
+struct IoItem
+{
+  int kind; // 0 get_viewgram 1 get_sinogram 2 get_bin_value 3 get_segment_by_view 4 get_segment_by_sinogram
+            // 10 set_viewgram 11 set_sinogram 12 set_segment (by view) 13 set_segment (by sinogram) 14 set_bin_value for one sinogram
+  int seg, view, ax, tang, tof;
+};
+
+// The harness' own parallel loop over `items`: reads from `rd` are compared with `rd_copy` (an in-memory copy), writes take the
+// values of `src` and go to disjoint regions of `dst`; afterwards `dst` must equal `src` everywhere.
+static void
+io_hammer(const std::string& what, int T, ProjData& rd, ProjDataInMemory& rd_copy, ProjData& dst, ProjDataInMemory& src, const std::vector<IoItem>& items)
+{
+  std::atomic<int> bad_reads(0), bad_writes(0), exceptions(0);
+  auto* rd_s = dynamic_cast<ProjDataFromStream*>(&rd);
+  auto* rd_m = dynamic_cast<ProjDataInMemory*>(&rd);
+  auto* dst_s = dynamic_cast<ProjDataFromStream*>(&dst);
+  auto* dst_m = dynamic_cast<ProjDataInMemory*>(&dst);
+  stir::set_num_threads(T);
+  start_trace();
+#pragma omp parallel for schedule(dynamic)
+  for (int i = 0; i < static_cast<int>(items.size()); ++i)
+    {
+      const IoItem& it = items[i];
+      try
+        {
+          if (i % 4 == 0)
+            perturb(true);
+          switch (it.kind)
+            {
+            case 0:
+              if (!same_values(rd.get_viewgram(it.view, it.seg, false, it.tof), rd_copy.get_viewgram(it.view, it.seg, false, it.tof)))
+                ++bad_reads;
+              break;
+            case 1:
+              if (!same_values(rd.get_sinogram(it.ax, it.seg, false, it.tof), rd_copy.get_sinogram(it.ax, it.seg, false, it.tof)))
+                ++bad_reads;
+              break;
+            case 2: {
+              Bin b(it.seg, it.view, it.ax, it.tang, it.tof);
+              Bin b2 = b;
+              const float got = rd_s ? rd_s->get_bin_value(b) : rd_m->get_bin_value(b);
+              if (got != rd_copy.get_bin_value(b2))
+                ++bad_reads;
+              break;
+            }
+            case 3:
+              if (!same_values(rd.get_segment_by_view(it.seg, it.tof), rd_copy.get_segment_by_view(it.seg, it.tof)))
+                ++bad_reads;
+              break;
+            case 4:
+              if (!same_values(rd.get_segment_by_sinogram(it.seg, it.tof), rd_copy.get_segment_by_sinogram(it.seg, it.tof)))
+                ++bad_reads;
+              break;
+            case 10:
+              if (dst.set_viewgram(src.get_viewgram(it.view, it.seg, false, it.tof)) != Succeeded::yes)
+                ++bad_writes;
+              break;
+            case 11:
+              if (dst.set_sinogram(src.get_sinogram(it.ax, it.seg, false, it.tof)) != Succeeded::yes)
+                ++bad_writes;
+              break;
+            case 12:
+              if (dst.set_segment(src.get_segment_by_view(it.seg, it.tof)) != Succeeded::yes)
+                ++bad_writes;
+              break;
+            case 13:
+              if (dst.set_segment(src.get_segment_by_sinogram(it.seg, it.tof)) != Succeeded::yes)
+                ++bad_writes;
+              break;
+            case 14: {
+              const Sinogram<float> sino = src.get_sinogram(it.ax, it.seg, false, it.tof);
+              for (int v = sino.get_min_view_num(); v <= sino.get_max_view_num(); ++v)
+                for (int tp = sino.get_min_tangential_pos_num(); tp <= sino.get_max_tangential_pos_num(); ++tp)
+                  {
+                    Bin b(it.seg, v, it.ax, tp, it.tof, sino[v][tp]);
+                    if (dst_s)
+                      dst_s->set_bin_value(b);
+                    else
+                      dst_m->set_bin_value(b);
+                  }
+              break;
+            }
+            }
+        }
+      catch (...)
+        {
+          ++exceptions;
+        }
+    }
+  emit_trace("projdata_stream.io", 0, 0, 0);
+  stir::set_num_threads(1);
+  ++oracle_checks;
+  if (exceptions)
+    fail("projdata_stream: " + what + ": " + std::to_string(exceptions.load()) + " concurrent get_/set_ calls threw, threads=" + std::to_string(T));
+  ++oracle_checks;
+  if (bad_reads)
+    fail("projdata_stream: " + what + ": " + std::to_string(bad_reads.load()) + " concurrent reads returned data different from what is stored, threads="
+         + std::to_string(T));
+  ++oracle_checks;
+  if (bad_writes)
+    fail("projdata_stream: " + what + ": " + std::to_string(bad_writes.load()) + " concurrent set_ calls reported failure, threads=" + std::to_string(T));
+  ++oracle_checks;
+  std::string why;
+  try
+    {
+      if (!projdata_close(dst, src, 0., why))
+        fail("projdata_stream: " + what + ": after concurrent writes to disjoint regions the data differ from what was written, threads=" + std::to_string(T) + ": " + why);
+    }
+  catch (...)
+    {
+      fail("projdata_stream: " + what + ": reading back after concurrent writes threw, threads=" + std::to_string(T));
+    }
+}
+
+// with_bin_values = false: the same list without the items of kind 2 / 14 (single-bin accessors), whose positions become reads /
+// writes of the sinogram (so that the list still covers every region)
+static std::vector<IoItem>
+without_bin_values(std::vector<IoItem> items)
+{
+  for (auto& it : items)
+    if (it.kind == 2)
+      it.kind = 1;
+    else if (it.kind == 14)
+      it.kind = 11;
+  return items;
+}
+
+static std::vector<IoItem>
+make_io_items(const Problem& p, vh::Rng& rng, int n_reads)
+{
+  const ProjDataInfo& pdi = *p.pdi;
+  std::vector<IoItem> items;
+  for (int t = pdi.get_min_tof_pos_num(); t <= pdi.get_max_tof_pos_num(); ++t)
+    for (int s = pdi.get_min_segment_num(); s <= pdi.get_max_segment_num(); ++s)
+      {
+        const int mode = rng.range(0, 4);
+        if (mode == 0)
+          for (int v = pdi.get_min_view_num(); v <= pdi.get_max_view_num(); ++v)
+            items.push_back(IoItem{ 10, s, v, 0, 0, t });
+        else if (mode == 1)
+          for (int a = pdi.get_min_axial_pos_num(s); a <= pdi.get_max_axial_pos_num(s); ++a)
+            items.push_back(IoItem{ 11, s, 0, a, 0, t });
+        else if (mode == 2)
+          items.push_back(IoItem{ 12, s, 0, 0, 0, t });
+        else if (mode == 3)
+          items.push_back(IoItem{ 13, s, 0, 0, 0, t });
+        else
+          for (int a = pdi.get_min_axial_pos_num(s); a <= pdi.get_max_axial_pos_num(s); ++a)
+            items.push_back(IoItem{ 14, s, 0, a, 0, t });
+      }
+  for (int k = 0; k < n_reads; ++k)
+    {
+      IoItem it;
+      const int r = rng.range(0, 19);
+      it.kind = r < 9 ? 0 : r < 13 ? 1 : r < 17 ? 2 : r < 19 ? 3 : 4;
+      it.tof = rng.range(pdi.get_min_tof_pos_num(), pdi.get_max_tof_pos_num());
+      it.seg = rng.range(pdi.get_min_segment_num(), pdi.get_max_segment_num());
+      it.view = rng.range(pdi.get_min_view_num(), pdi.get_max_view_num());
+      it.ax = rng.range(pdi.get_min_axial_pos_num(it.seg), pdi.get_max_axial_pos_num(it.seg));
+      it.tang = rng.range(pdi.get_min_tangential_pos_num(), pdi.get_max_tangential_pos_num());
+      items.push_back(it);
+    }
+  for (std::size_t i = items.size(); i > 1; --i)
+    std::swap(items[i - 1], items[rng.range(0, static_cast<int>(i) - 1)]);
+  return items;
+}
+
+static void
+scenario_projdata_stream(vh::Rng& rng, int T)
+{
+  Problem p = make_problem(rng, false);
+  // (the Interfile header writer knows only the by-view order for TOF data)
+  const ProjDataFromStream::StorageOrder order
+      = (rng.coin() || p.tof) ? ProjDataFromStream::Segment_View_AxialPos_TangPos : ProjDataFromStream::Segment_AxialPos_View_TangPos;
+  std::vector<std::string> files;
+  auto fresh = [&](const char* tag) {
+    files.push_back(new_file(tag));
+    return files.back();
+  };
+  stir::set_num_threads(1);
+  // ---- .io: concurrent use of one object from user code
+  {
+    ProjDataInMemory src(p.exam, p.pdi), rd_copy(p.exam, p.pdi);
+    fill_data(src, rng, 1, 9);
+    fill_data(rd_copy, rng, 1, 9);
+    const std::vector<IoItem> items = make_io_items(p, rng, 400);
+    {
+      const std::string frd = fresh("rd"), fdst = fresh("dst");
+      shared_ptr<ProjData> rd = make_file(p, frd, order);
+      rd->fill(rd_copy);
+      shared_ptr<ProjData> dst = make_file(p, fdst, order);
+      dst->fill(0.F);
+      // half of the time the reader is a second object on the same file (as a reconstruction reading data written earlier)
+      shared_ptr<ProjData> reader = rng.coin() ? rd : ProjData::read_from_file(frd + ".hs");
+      // (ProjDataFromStream::get_bin_value / set_bin_value are not inside critical(PROJDATAFROMSTREAMIO) and no computation of the property
+      //  calls them from a parallel region: they are not used on file-backed objects here)
+      io_hammer("ProjDataInterfile/ProjDataFromStream on a file", T, *reader, rd_copy, *dst, src, without_bin_values(items));
+    }
+    {
+      ProjDataInMemory rd(p.exam, p.pdi), dst(p.exam, p.pdi);
+      rd.fill(rd_copy);
+      dst.fill(0.F);
+      io_hammer("ProjDataInMemory", T, rd, rd_copy, dst, src, items);
+    }
+  }
+  // ---- .project: forward projection into a file, back projection from a file
+  Image& x = *p.image;
+  fill_image(x, rng, false);
+  const std::string fy = fresh("y");
+  {
+    shared_ptr<ProjData> y = make_file(p, fy, order);
+    ProjDataInMemory tmp(p.exam, p.pdi);
+    fill_data(tmp, rng, -4, 4);
+    y->fill(tmp);
+  }
+  int n_items = 0;
+  auto project = [&](int threads, bool trace, const std::string& ffwd, shared_ptr<Image> bck) {
+    stir::set_num_threads(threads);
+    shared_ptr<ProjMatrixByBinUsingRayTracing> pm = make_matrix(p, true);
+    n_items = num_items_in_subset(p, *pm, 0, 1);
+    ForwardProjectorByBinUsingProjMatrixByBin fp(pm);
+    BackProjectorByBinUsingProjMatrixByBin bp(pm);
+    fp.set_up(p.pdi, p.image);
+    bp.set_up(p.pdi, p.image);
+    shared_ptr<ProjData> fwd = make_file(p, ffwd, order);
+    shared_ptr<ProjData> y = ProjData::read_from_file(fy + ".hs");
+    if (trace)
+      start_trace();
+    fp.forward_project(*fwd, x);
+    bp.back_project(*bck, *y);
+    if (trace)
+      emit_trace("projdata_stream.project", n_items, n_items, 0);
+  };
+  {
+    const std::string fref = fresh("fwd1"), fpar = fresh("fwdT");
+    shared_ptr<Image> bck_ref(x.get_empty_copy()), bck_par(x.get_empty_copy());
+    project(1, false, fref, bck_ref);
+    project(T, true, fpar, bck_par);
+    stir::set_num_threads(1);
+    std::string why;
+    ++oracle_checks;
+    // every bin of the forward projection is computed by exactly one thread from one matrix row: no reassociation at all
+    if (!projdata_close(*ProjData::read_from_file(fpar + ".hs"), *ProjData::read_from_file(fref + ".hs"), 1e-5, why))
+      fail("projdata_stream: forward projection into a file with " + std::to_string(T) + " threads differs from the file written by the single-thread run: " + why);
+    ++oracle_checks;
+    if (!images_close(*bck_par, *bck_ref, 2e-5, why))
+      fail("projdata_stream: back projection of data in a file with " + std::to_string(T) + " threads differs from single-thread result beyond reassociation: " + why);
+  }
+  // ---- .loglik: objective function on data / additive term / normalisation factors in files
+  {
+    LLConfig c;
+    c.x = p.image;
+    fill_image(*c.x, rng, true);
+    c.dir.reset(c.x->get_empty_copy());
+    fill_image(*c.dir, rng, true);
+    c.zero_ends = false;
+    c.nsub = rng.range(1, 2);
+    const std::string fc = fresh("counts"), fa = fresh("add"), fn = fresh("norm");
+    const bool with_add = rng.range(0, 3) != 0, with_norm = rng.coin();
+    {
+      ProjDataInMemory tmp(p.exam, p.pdi);
+      fill_data(tmp, rng, 0, 6);
+      make_file(p, fc, order)->fill(tmp);
+      fill_data(tmp, rng, 1, 3);
+      make_file(p, fa, order)->fill(tmp);
+      fill_data(tmp, rng, 1, 3);
+      make_file(p, fn, order)->fill(tmp);
+    }
+    auto open = [&](const std::string& f, bool wanted) { return wanted ? ProjData::read_from_file(f + ".hs") : shared_ptr<ProjData>(); };
+    LLResult ref = run_ll(p, c, open(fc, true), open(fa, with_add), open(fn, with_norm), 1, false, "projdata_stream.loglik");
+    if (!ref.ok && c.nsub != 1)
+      {
+        c.nsub = 1;
+        ref = run_ll(p, c, open(fc, true), open(fa, with_add), open(fn, with_norm), 1, false, "projdata_stream.loglik");
+      }
+    ++oracle_checks;
+    if (!ref.ok)
+      fail("projdata_stream: single-thread reference run of the objective function failed: " + ref.error);
+    else
+      {
+        LLResult par = run_ll(p, c, open(fc, true), open(fa, with_add), open(fn, with_norm), T, true, "projdata_stream.loglik");
+        compare_ll("projdata_stream.loglik", T, ref, par);
+      }
+  }
+  stir::set_num_threads(1);
+  for (auto& f : files)
+    remove_files(f);
+}
+
+// ---------------------------------------------------------------- scenario: scatter
+typedef VoxelsOnCartesianGrid<float> Vox;
+
+// access to the protected per-viewgram step (no behaviour added): records what it returns; the per-bin step (called inside the
+// library's parallel loop) is a schedule point
+struct ScatterSim : public SingleScatterSimulation
+{
+  std::vector<double> totals;
+  double scatter_estimate(const Bin& bin) override
+  {
+    if (g_logging)
+      perturb(true);
+    return SingleScatterSimulation::scatter_estimate(bin);
+  }
+  double process_data_for_view_segment_num(const ViewSegmentNumbers& vs) override
+  {
+    const double t = SingleScatterSimulation::process_data_for_view_segment_num(vs);
+    totals.push_back(t);
+    return t;
+  }
+};
+
+static shared_ptr<Vox>
+blank_image(int nz, int nxy, float vz, float vxy)
+{
+  shared_ptr<Vox> im(new Vox(IndexRange3D(0, nz - 1, -(nxy / 2), -(nxy / 2) + nxy - 1, -(nxy / 2), -(nxy / 2) + nxy - 1),
+                             CartesianCoordinate3D<float>(0, 0, 0),
+                             CartesianCoordinate3D<float>(vz, vxy, vxy)));
+  im->fill(0.F);
+  return im;
+}
+
+static void
+scenario_scatter(vh::Rng& rng, int T)
+{
+  static const int Ns[] = { 12, 16, 20, 24 };
+  const int N = Ns[rng.range(0, 3)], R = rng.range(1, 3);
+  shared_ptr<Scanner> scanner = vh::make_scanner(N, R);
+  scanner->set_energy_resolution(0.10F + 0.02F * rng.range(0, 3));
+  shared_ptr<ProjDataInfo> pdi = vh::make_pdi(scanner, 1, R - 1, N / 2, N / 2 - 1);
+  shared_ptr<ExamInfo> exam(new ExamInfo);
+  exam->set_low_energy_thres(350.F + 25 * rng.range(0, 4));
+  exam->set_high_energy_thres(650.F);
+  exam->imaging_modality = ImagingModality::PT;
+  const int anxy = rng.coin() ? 5 : 7;
+  const float avxy = anxy == 5 ? 11.F : 8.F;
+  shared_ptr<Vox> act = blank_image(3, anxy, 4.F, avxy), att = blank_image(3, anxy, 4.F, avxy);
+  for (auto it = act->begin_all(); it != act->end_all(); ++it)
+    *it = rng.unit() < 0.25 ? 0.F : static_cast<float>(0.5 + 5.5 * rng.unit());
+  for (auto it = att->begin_all(); it != att->end_all(); ++it)
+    *it = rng.unit() < 0.6 ? static_cast<float>(0.012 + 0.02 * rng.unit()) : static_cast<float>(0.10 + 0.06 * rng.unit());
+  // scatter points: a coarse grid with the same z-middle, 4..9 voxels above the threshold
+  const int cnxy = 3, cnz = 2;
+  shared_ptr<Vox> sp = blank_image(cnz, cnxy, 8.F, avxy * anxy / cnxy);
+  {
+    int n = 0;
+    const int wanted = rng.range(4, 9);
+    for (auto it = sp->begin_all(); it != sp->end_all(); ++it)
+      if (n < wanted && rng.range(0, 2) != 0)
+        {
+          *it = static_cast<float>(0.02 + 0.13 * rng.unit());
+          ++n;
+        }
+  }
+  struct Out
+  {
+    bool ok = false;
+    std::string error;
+    std::vector<float> bins;
+    std::vector<double> totals;
+  };
+  auto run = [&](int threads, bool cache, bool trace) {
+    Out o;
+    stir::set_num_threads(threads);
+    try
+      {
+        ScatterSim s;
+        s.set_randomly_place_scatter_points(false);
+        s.set_attenuation_threshold(0.01F);
+        s.set_use_cache(cache);
+        s.set_template_proj_data_info(*pdi);
+        s.set_exam_info(*exam);
+        s.set_activity_image_sptr(act);
+        s.set_density_image_sptr(att);
+        s.set_density_image_for_scatter_points_sptr(sp);
+        if (trace)
+          {
+            g_sc_reads = 0;
+            g_sc_hits = 0;
+            start_trace();
+          }
+        if (s.set_up() != Succeeded::yes)
+          {
+            g_logging = false;
+            o.error = "set_up failed";
+            return o;
+          }
+        shared_ptr<ProjDataInMemory> out(new ProjDataInMemory(s.get_exam_info_sptr(), s.get_template_proj_data_info_sptr()->create_shared_clone()));
+        s.set_output_proj_data_sptr(out);
+        const bool fine = s.process_data() == Succeeded::yes;
+        if (trace)
+          {
+            // the cache reads are summarised as one event (number of reads, number of hits)
+            g_logging = false;
+            g_log.push_back(Event{ 0, cache ? "sc.act.reads" : "sc.nocache", g_sc_reads.load(), static_cast<int>(g_sc_hits.load()) });
+            emit_trace(cache ? "scatter.cache" : "scatter.nocache", 0, 0, 0);
+          }
+        if (!fine)
+          {
+            o.error = "process_data did not succeed";
+            return o;
+          }
+        auto* m = dynamic_cast<ProjDataInMemory*>(s.get_output_proj_data_sptr().get());
+        if (!m)
+          {
+            o.error = "no output";
+            return o;
+          }
+        o.bins.assign(m->begin_all(), m->end_all());
+        o.totals = s.totals;
+        o.ok = true;
+      }
+    catch (std::exception& e)
+      {
+        g_logging = false;
+        o.error = std::string("exception: ") + e.what();
+      }
+    catch (...)
+      {
+        g_logging = false;
+        o.error = "exception";
+      }
+    return o;
+  };
+  for (int rep = 0; rep < 2; ++rep)
+    for (int cache = 0; cache < 2; ++cache)
+      {
+        const Out ref = run(1, cache, false);
+        ++oracle_checks;
+        if (!ref.ok)
+          {
+            fail(std::string("scatter: single-thread reference run failed: ") + ref.error);
+            continue;
+          }
+        const Out par = run(T, cache, true);
+        const std::string ctx = std::string(cache ? "cache enabled" : "cache disabled") + ", threads=" + std::to_string(T);
+        ++oracle_checks;
+        if (!par.ok)
+          {
+            fail("scatter: " + ctx + ": " + par.error + " where the single-thread run succeeded");
+            continue;
+          }
+        // every bin is computed by one thread as a sequential sum over the scatter points, and a cached integral is the value the same
+        // function returns uncached: no reassociation, the bins must be bitwise those of the single-thread run
+        ++oracle_checks;
+        if (par.bins.size() != ref.bins.size())
+          fail("scatter: " + ctx + ": output size differs");
+        else
+          for (std::size_t i = 0; i < ref.bins.size(); ++i)
+            if (!(par.bins[i] == ref.bins[i]))
+              {
+                fail("scatter: " + ctx + ": bin " + std::to_string(i) + " = " + vh::hex(par.bins[i]) + " vs single-thread " + vh::hex(ref.bins[i]));
+                break;
+              }
+        // total scatter per viewgram: reduction(+) of per-thread partial sums of non-negative doubles
+        ++oracle_checks;
+        if (par.totals.size() != ref.totals.size())
+          fail("scatter: " + ctx + ": number of viewgrams processed differs");
+        else
+          for (std::size_t i = 0; i < ref.totals.size(); ++i)
+            if (!(std::fabs(par.totals[i] - ref.totals[i]) <= 1e-12 * std::fabs(ref.totals[i])))
+              {
+                fail("scatter: " + ctx + ": total scatter of viewgram " + std::to_string(i) + " = " + vh::hex(par.totals[i]) + " vs single-thread "
+                     + vh::hex(ref.totals[i]));
+                break;
+              }
+      }
+  stir::set_num_threads(1);
+}
+
 int
 main(int argc, char** argv)
 {
@@ -459,17 +1287,37 @@ main(int argc, char** argv)
   out = std::fopen(argv[4], "w");
   orc = std::fopen((std::string(argv[4]) + ".oracle").c_str(), "w");
   omp_set_dynamic(0);
+  {
+    const std::string opsname(argv[3]);
+    const std::size_t slash = opsname.find_last_of('/');
+    g_dir = (slash == std::string::npos ? std::string(".") : opsname.substr(0, slash)) + "/c18_files_" + argv[2];
+    mkdir(g_dir.c_str(), 0777);
+    wipe_dir();
+  }
   const std::vector<int> threads = thorough ? std::vector<int>{ 2, 3, 4, 5, 8, 11, 16 } : std::vector<int>{ 2, 4, 7 };
   const int reps = thorough ? 12 : 3;
+  // development aid: an optional 5th argument restricts the run to one scenario (the check never passes it)
+  const std::string only = argc > 5 ? argv[5] : "";
+  auto want = [&](const char* name) { return only.empty() || only == name; };
   for (int rep = 0; rep < reps; ++rep)
     for (int T : threads)
       {
         try
           {
-            scenario_tables(rng, T);
-            scenario_cache(rng, T);
-            scenario_project(rng, T, false);
-            scenario_loglik(rng, T);
+            if (want("tables"))
+              scenario_tables(rng, T);
+            if (want("cache"))
+              scenario_cache(rng, T);
+            if (want("project"))
+              scenario_project(rng, T, false);
+            if (want("loglik"))
+              scenario_loglik(rng, T);
+            if (want("loglik_full"))
+              scenario_loglik_full(rng, T);
+            if (want("projdata_stream"))
+              scenario_projdata_stream(rng, T);
+            if (want("scatter"))
+              scenario_scatter(rng, T);
           }
         catch (std::exception& e)
           {
@@ -482,7 +1330,8 @@ main(int argc, char** argv)
     {
       try
         {
-          scenario_project(rng, 16, true);
+          if (want("project"))
+            scenario_project(rng, 16, true);
         }
       catch (std::exception& e)
         {
@@ -490,6 +1339,8 @@ main(int argc, char** argv)
           g_logging = false;
         }
     }
+  wipe_dir();
+  rmdir(g_dir.c_str());
   std::fprintf(orc, "ORACLE-DONE checks=%ld fails=%ld\n", oracle_checks, oracle_fails);
   std::fclose(ops);
   std::fclose(out);
